@@ -153,8 +153,10 @@ def run(repo, run, tier):
               "integer literals must be taken from the parsed value expression", am.loc(value_loop))
     # C++ radix: a literal with a leading 0 is octal
     octal = [c for c in ints if len(c.args) == 2 and isinstance(c.args[1], ast.Constant) and c.args[1].value == 8]
-    guarded = any("[0] == '0'" in am.seg(t) for c in octal for t, pol in pyflow.dominating_tests(c, stop=value_loop) if pol) and \
-        any(pat.has(value_loop, "MV_D = MV_L.lstrip('+-')") for _ in [0])
+    # the sign is peeled before the leading digit is looked at: the test is on the stripped text
+    stripped = set(env["D"] for _, env in pat.find(value_loop, "MV_D = MV_L.lstrip('+-')"))
+    guarded = any(any(("%s[0] == '0'" % d) in am.seg(t) for d in stripped)
+                  for c in octal for t, pol in pyflow.dominating_tests(c, stop=value_loop) if pol)
     run.check(R1, "ast.EnumNode.__init__:octal-literal", bool(octal) and guarded,
               "an enumerator literal with a leading 0 is octal in C++ (`A = 010` is 8): evaluating it with int(text) "
               "gives 10 in the C header and the Fortran parameter", am.loc(value_loop))
